@@ -395,13 +395,27 @@ fn check_styles(styles: &Styles, c: &StyleCase, st: &mut Stats) -> Result<(), Fa
             fail!("styles-differ", "document at version {} differs between {} and {}: {}", c.version, names[0], names[i], diff);
         }
     }
-    st.sample(|| json!({"version": c.version, "bytes": docs[0].0.len(), "operations": docs[0].1["paths"].as_object().map(|p| p.len())}));
+    // the document-level tag list of a version: exactly the tags written on the published declarations served at it
+    let m = manifest();
+    let want: std::collections::BTreeSet<String> = m.decls.iter().filter(|d| !d.unpublished && member(d, &c.version)).flat_map(|d| d.tags.iter().cloned()).collect();
+    let got: std::collections::BTreeSet<String> = docs[0].1["tags"].as_array().map(|a| a.iter().filter_map(|t| t["name"].as_str().map(|s| s.to_string())).collect()).unwrap_or_default();
+    ensure!(
+        got == want,
+        "doc-level-tags",
+        "document at version {}: top-level tags list {:?}, but the declarations published at this version carry {:?} (extra {:?}, missing {:?})",
+        c.version,
+        got,
+        want,
+        got.difference(&want).collect::<Vec<_>>(),
+        want.difference(&got).collect::<Vec<_>>()
+    );
+    st.sample(|| json!({"version": c.version, "bytes": docs[0].0.len(), "operations": docs[0].1["paths"].as_object().map(|p| p.len()), "tags": got.len()}));
     Ok(())
 }
 
 fn run_c19(ctx: &mut Ctx) {
     let m = manifest();
-    ctx.rule = format!("{} generated endpoint/channel declarations (seed {}) over method, path shapes (literals, typed variables, trailing wildcard), tags, all five version-range syntaxes with string literals and const paths, operation_id, content_type, request_body_max_bytes (literal and const), deprecated, unpublished, extractor lists in both orders, all response kinds, custom error types and four doc-comment shapes; each rendered as a free function, as an API-trait method with an implementation and present in the trait's stub. Oracle: generator-side record == routing metadata at 8 probe versions in all three styles == OpenAPI operation (id, tags, deprecated, content type, websocket extension, doc text with whitespace removed); the three styles yield byte-identical documents at every version. Phase served_live sends each endpoint (function and trait+impl style, header version policy) a valid request and compares the handler's request_body_max_bytes() with the declared limit (else the server default of 1024), then a buffered body of exactly the limit (accepted) and one byte more (4xx, handler not entered). non-trivial = declaration using >= 3 optional attributes; distinct by declaration", m.n, m.seed);
+    ctx.rule = format!("{} generated endpoint/channel declarations (seed {}) over method, path shapes (literals, typed variables, trailing wildcard), tags, all five version-range syntaxes with string literals and const paths, operation_id, content_type, request_body_max_bytes (literal and const), deprecated, unpublished, extractor lists in both orders, all response kinds, custom error types and four doc-comment shapes; each rendered as a free function, as an API-trait method with an implementation and present in the trait's stub. Oracle: generator-side record == routing metadata at 8 probe versions in all three styles == OpenAPI operation (id, tags, deprecated, content type, websocket extension, doc text with whitespace removed); the three styles yield byte-identical documents at every version, whose document-level tag list is exactly the set of tags of the declarations published at that version. Phase served_live sends each endpoint (function and trait+impl style, header version policy) a valid request and compares the handler's request_body_max_bytes() with the declared limit (else the server default of 1024), then a buffered body of exactly the limit (accepted) and one byte more (4xx, handler not entered). non-trivial = declaration using >= 3 optional attributes; distinct by declaration", m.n, m.seed);
     ctx.assume("compile-time rejection of bad declarations is out of scope; the grammar of generated declarations is finite");
     let styles = prepare();
     let cases: Vec<DeclCase> = m.decls.iter().map(|d| DeclCase { seed: m.seed, n: m.n, decl: d.clone() }).collect();
